@@ -25,7 +25,7 @@ ran = []
 rc2, o2 = run('cargo test --workspace --no-fail-fast --offline')
 ran.append({'step': 'existing suite with change: cargo test --workspace --no-fail-fast --offline', 'exit': rc2})
 demo_cmd = open(os.path.join(src, 'demo_cmd.txt')).read().strip()
-demo_cmd = ' '.join(l.strip() for l in demo_cmd.split('\n') if l.strip() and not l.strip().startswith('#'))
+demo_cmd = ' && '.join(l.strip() for l in demo_cmd.split('\n') if l.strip() and not l.strip().startswith('#'))
 rc1, o1 = run(demo_cmd); ran.append({'step': 'demo with change: ' + demo_cmd, 'exit': rc1})
 run('git checkout -- .')
 rc3, o3 = run(demo_cmd); ran.append({'step': 'demo without change: ' + demo_cmd, 'exit': rc3})
